@@ -51,6 +51,8 @@ enum Kind {
   Target,
   /// stack/control forms with SP over all 65536 (outer = high byte) x F {0x00,0xF0}
   SpAll,
+  /// thorough: the encoding at every executable PC (outer = PC high byte) x F {0x00, 0xF0}
+  PcAll,
 }
 
 #[derive(Clone, Copy, Debug, PartialEq)]
@@ -220,6 +222,18 @@ fn build_sweeps(prop: &str, thorough: bool) -> Vec<Sweep> {
       } else {
         let (c, l) = enc(op);
         add(Kind::Place, c, l, n_places);
+      }
+    }
+    if thorough && !jit {
+      for op in 0..=255u8 {
+        if op == 0xCB {
+          for cb in [0x00u8, 0x46, 0x86, 0xFE].iter() {
+            add(Kind::PcAll, [0xCB, *cb, 0], 2, 256);
+          }
+        } else {
+          let (c, l) = enc(op);
+          add(Kind::PcAll, c, l, 256);
+        }
       }
     }
     for op in [0x18u8, 0x20, 0x28, 0x30, 0x38].iter() {
@@ -921,6 +935,25 @@ fn run_case(job: &Job, wk: &mut W, case: u64, ctx: &mut Ctx) {
           c.sp = 0xD100;
           eval(job, wk, ctx, &s2, &c, None, "rom0");
         }
+      }
+    },
+    Kind::PcAll => {
+      for lo in 0..=255u16 {
+        let pc = ((outer as u16) << 8) | lo;
+        let executable = pc < 0x8000 || (0xC000..0xE000).contains(&pc) || (0xFF80..0xFFFF).contains(&pc);
+        // the whole instruction must lie in executable memory (its last byte may be 0xFFFE)
+        let end = pc as u32 + sw.len as u32 - 1;
+        if !executable || end > 0xFFFE || (pc < 0x8000 && end >= 0x8000) || (pc < 0xE000 && pc >= 0xC000 && end >= 0xE000) {
+          continue;
+        }
+        wk.plant(pc, code);
+        for f in [0x00u8, 0xF0].iter() {
+          let mut c = base_cpu((lo & 1) as usize, pc);
+          c.f = *f;
+          c.sp = if (0xDF00..0xE000).contains(&pc) { 0xC800 } else { 0xDFF0 };
+          eval(job, wk, ctx, &sw, &c, None, "any-pc");
+        }
+        wk.unplant();
       }
     },
     Kind::SpAll => {
